@@ -125,9 +125,10 @@ def judge_canvas(widget, size, focus, canv, mode, reported=None, clauses=None):
 
 
 class Event:
-    __slots__ = ("widget", "size", "focus", "dims", "problems", "chain", "judged")
+    __slots__ = ("widget", "size", "focus", "dims", "problems", "chain", "judged", "defcls")
 
-    def __init__(self, widget, size, focus, dims, problems, chain, judged):
+    def __init__(self, widget, size, focus, dims, problems, chain, judged, defcls=None):
+        self.defcls = defcls  # name of the class whose render() produced the canvas (may be a base class of type(widget))
         self.widget = widget
         self.size = size
         self.focus = focus
@@ -162,8 +163,8 @@ def traceback_chain(tb):
         loc = f.f_locals
         w = loc.get("self")
         if isinstance(w, Widget) and isinstance(loc.get("size"), tuple):
-            item = (w, loc["size"], bool(loc.get("focus", False)), f.f_code.co_name)
-            if not out or out[-1][0] is not w or out[-1][1] != item[1]:
+            item = (w, loc["size"], bool(loc.get("focus", False)), f.f_code.co_qualname)
+            if f.f_code.co_name not in ("cached_render", "finalize_render", "cached_rows"):
                 out.append(item)
         tb = tb.tb_next
     return out
@@ -240,7 +241,11 @@ class M1:
             self.counts["m1_problems"] += 1
         if self.keep_log:
             chain = render_chain(frame) if problems else None
-            self.log.append(Event(widget, size, focus, (canv.cols(), canv.rows()), problems, chain, ok))
+            defcls = None
+            if problems:
+                fn = frame.f_locals.get("fn")
+                defcls = getattr(fn, "__qualname__", "").split(".")[0] or None
+            self.log.append(Event(widget, size, focus, (canv.cols(), canv.rows()), problems, chain, ok, defcls))
         return self.orig(widget, size, canv)
 
     def first_problem(self):
